@@ -79,30 +79,34 @@ def digitsVal (base : Nat) (acc : Nat) (seen : Bool) : Str → Nat × Str × Boo
 
 def isSpaceC (c : Ch) : Bool := c == 32 || (9 ≤ c && c ≤ 13)
 
+/-- optional sign of a number -/
+def stripSign (s : Str) : Bool × Str :=
+  match s with
+  | 45 :: t => (true, t)     -- '-'
+  | 43 :: t => (false, t)    -- '+'
+  | _ => (false, s)
+
+/-- "0x"/"0X" prefix, skipped only when a hex digit follows (glibc) -/
+def stripHexPrefix (s : Str) : Str :=
+  match s with
+  | 48 :: x :: t =>
+    if (x == ch! 'x' || x == ch! 'X') &&
+       (match t with
+        | d :: _ => (match digitVal d with | some v => v < 16 | none => false)
+        | [] => false) then t else s
+  | _ => s
+
+/-- the 64-bit result of the conversion: saturation, then negation modulo 2^64 -/
+def strtoulResult (neg : Bool) (v : Nat) : Nat :=
+  if v ≥ 2 ^ 64 then 2 ^ 64 - 1 else if neg then (2 ^ 64 - v) % 2 ^ 64 else v
+
 /-- glibc `strtoul(s, &end, base)` for base 10 or 16: the 64-bit result, what `end` points at,
     and whether any digits were converted (`end != s`). -/
 def strtoulEnd (s : Str) (base : Nat) : Nat × Str × Bool :=
-  let s := s.dropWhile isSpaceC
-  let (neg, s) :=
-    match s with
-    | 45 :: t => (true, t)     -- '-'
-    | 43 :: t => (false, t)    -- '+'
-    | _ => (false, s)
-  let s :=
-    if base == 16 then
-      match s with
-      | 48 :: x :: t =>
-        -- "0x"/"0X" prefix is skipped only when a hex digit follows (glibc)
-        if (x == ch! 'x' || x == ch! 'X') &&
-           (match t with
-            | d :: _ => (match digitVal d with | some v => v < 16 | none => false)
-            | [] => false) then t else s
-      | _ => s
-    else s
-  let (v, rest, seen) := digitsVal base 0 false s
-  let r := if v ≥ 2 ^ 64 then 2 ^ 64 - 1
-           else if neg then (2 ^ 64 - v) % 2 ^ 64 else v
-  (r, rest, seen)
+  let ns := stripSign (s.dropWhile isSpaceC)
+  let body := if base == 16 then stripHexPrefix ns.2 else ns.2
+  let r := digitsVal base 0 false body
+  (strtoulResult ns.1 r.1, r.2.1, r.2.2)
 
 /-- `strtoul(s, NULL, base)` -/
 def strtoul (s : Str) (base : Nat) : Nat := (strtoulEnd s base).1
